@@ -252,11 +252,77 @@ func c05eval(b []byte) (fs []ev.Finding, execs int, ntoks int) {
 	return
 }
 
+// c05errorPos: the position quoted in a parse error is the position the scanner attached to the offending token.
+// The token stream is not unique (the parser chooses between Scan and ScanRegex at a '/'), so every stream is
+// collected; the error's (Found, Pos) pair must occur in one of them.
+func c05errorPos(text string) []ev.Finding {
+	var perr *influxql.ParseError
+	if p, _ := try(func() {
+		_, err := influxql.ParseStatement(text)
+		if e, ok := err.(*influxql.ParseError); ok {
+			perr = e
+		}
+	}); p != nil || perr == nil || perr.Found == "" || perr.Message != "" {
+		return nil
+	}
+	m := lexx.NewModel(text)
+	if strings.ContainsRune(text, 0) {
+		return nil // after a NUL positions stop advancing (known finding)
+	}
+	found := false
+	var candidates []string
+	var rec func(dec []int)
+	rec = func(dec []int) {
+		toks, sp, p, _ := c05scan(text, m, dec)
+		if p != nil {
+			return
+		}
+		for _, t := range toks {
+			name := t.lit
+			if name == "" {
+				name = t.tok.String()
+			}
+			if name == perr.Found {
+				candidates = append(candidates, fmt.Sprintf("%d:%d", t.pos.Line, t.pos.Char))
+				if t.pos == perr.Pos {
+					found = true
+				}
+			}
+		}
+		if sp > len(dec) && len(dec) < 4 {
+			for k := len(dec); k < sp && k < 4; k++ {
+				nd := append([]int{}, dec...)
+				for len(nd) < k {
+					nd = append(nd, 0)
+				}
+				rec(append(nd, 1))
+			}
+		}
+	}
+	rec(nil)
+	if !found && len(candidates) > 0 {
+		end := m.At[len(m.Runes)]
+		if perr.Found == "EOF" && perr.Pos.Line == end.Line && perr.Pos.Char == end.Char+1 {
+			// the end-of-input sentinel had been read once more by the parser's own rune look-ahead: the known EOF defect
+			return []ev.Finding{{Sig: "position:EOF:one-column-past-the-end", Witness: fmt.Sprintf("%q", text),
+				Detail: fmt.Sprintf("parse error reports EOF at line %d char %d, the text ends at line %d char %d", perr.Pos.Line, perr.Pos.Char, end.Line, end.Char),
+				Case:   c05Case{Bytes: []byte(text), Text: "parse-error", Regex: []int{-1}}, Rank: len(text) + 1000}}
+		}
+		return []ev.Finding{{Sig: "parse-error-position-is-not-the-token-position", Witness: fmt.Sprintf("%q", text),
+			Detail: fmt.Sprintf("ParseStatement reports found %q at line %d char %d (zero based), the scanner puts tokens spelled like that at %v", perr.Found, perr.Pos.Line, perr.Pos.Char, candidates),
+			Case:   c05Case{Bytes: []byte(text), Text: "parse-error", Regex: []int{-1}}, Rank: len(text)}}
+	}
+	return nil
+}
+
 func init() {
 	register(&Check{ID: "C05", Run: c05run, Replay: func(raw json.RawMessage) []ev.Finding {
 		var c c05Case
 		if json.Unmarshal(raw, &c) != nil {
 			return nil
+		}
+		if c.Text == "parse-error" {
+			return c05errorPos(string(c.Bytes))
 		}
 		f, _, _ := c05evalOne(c)
 		return f
@@ -279,6 +345,9 @@ func c05run(r *ev.Run) {
 		r.State(astx.HashString(text), len(text) > 0)
 		r.Sample(cnt, func() interface{} { return fmt.Sprintf("%q", text) })
 		for _, f := range fs {
+			r.Report(f)
+		}
+		for _, f := range c05errorPos(text) {
 			r.Report(f)
 		}
 	}
